@@ -1138,7 +1138,9 @@ static void run_script(FILE* in) {
                         for (int b = 0; c[b]; ++b) t[n++] = (char)c[b];
                     }
                     t[n] = 0;
+                    in_probe = 1; cur_op = "find";        /* library code: a crash in it is the library's */
                     int ret = drv_find_word(l, t);
+                    in_probe = 0;
                     if (ret >= 0) {
                         ++hits;
                         fprintf(out, "{\"e\":\"Find\",\"lang\":\"%s\",\"ret\":%d", tok[1], ret);
